@@ -637,6 +637,143 @@ func journalDiscipline(r *Run, entries []*types.Named) {
 		})
 	}
 	r.Count("R4 delete() calls in x/evm/statedb", nDel)
+	// entry-covers-writes: what a function writes after journal.append(E{…}) must be what E.Revert restores
+	{
+		fine := func(in ssa.Instruction) (string, bool) {
+			label, ok := revertibleWrite(in)
+			if !ok {
+				return "", false
+			}
+			if strings.HasPrefix(label, "accessList.") {
+				return "accessList", true
+			}
+			if label == "stateObject.account" {
+				var addr ssa.Value
+				switch x := in.(type) {
+				case *ssa.Store:
+					addr = x.Addr
+				}
+				if addr != nil {
+					if sn, f, ok := fieldOfAddr(addr); ok && sn == "Account" {
+						return label + "." + f, true
+					}
+				}
+			}
+			return label, true
+		}
+		hasAppend := func(fn *ssa.Function) bool {
+			h := false
+			eachInstr(fn, func(in ssa.Instruction) {
+				if baseAppend(in) {
+					h = true
+				}
+			})
+			return h
+		}
+		// readers (get*/Get*) only fill the object cache from committed state: not a state change
+		isReader := func(fn *ssa.Function) bool {
+			n := fn.Name()
+			return strings.HasPrefix(n, "get") || strings.HasPrefix(n, "Get")
+		}
+		// labels written by fn itself or through non-journaling helpers of the package
+		lmemo := map[*ssa.Function]map[string]bool{}
+		var labelsOf func(fn *ssa.Function, depth int) map[string]bool
+		labelsOf = func(fn *ssa.Function, depth int) map[string]bool {
+			if m, ok := lmemo[fn]; ok {
+				return m
+			}
+			m := map[string]bool{}
+			lmemo[fn] = m
+			eachInstr(fn, func(in ssa.Instruction) {
+				if l, ok := fine(in); ok {
+					m[l] = true
+				}
+				if c, ok := in.(ssa.CallInstruction); ok && depth > 0 {
+					if sc := c.Common().StaticCallee(); sc != nil && sc.Blocks != nil && fnPkgPath(sc) == statedbPkg && !hasAppend(sc) && !alwaysAppends[sc] && !statedbConstructors[sc.Name()] && !isReader(sc) {
+						for l := range labelsOf(sc, depth-1) {
+							m[l] = true
+						}
+					}
+				}
+			})
+			return m
+		}
+		revertLabels := map[string]map[string]bool{}
+		for _, e := range entries {
+			n := e.Obj().Name()
+			for _, pre := range []string{"(x/evm/statedb." + n + ").Revert", "(*x/evm/statedb." + n + ").Revert"} {
+				if f, ok := P.FnOK(pre); ok && f.Synthetic == "" {
+					revertLabels[n] = labelsOf(f, 3)
+				}
+			}
+		}
+		covers := func(rl map[string]bool, l string) bool {
+			if rl[l] {
+				return true
+			}
+			// a Revert that replaces the whole account / object restores every part of it
+			if strings.HasPrefix(l, "stateObject.account.") && rl["stateObject.account"] {
+				return true
+			}
+			if strings.HasPrefix(l, "stateObject.") && rl["StateDB.stateObjects"] {
+				return true
+			}
+			return false
+		}
+		nApp := 0
+		for _, fn := range fns {
+			if isRevert(fn) || statedbConstructors[fn.Name()] {
+				continue
+			}
+			eachInstr(fn, func(in ssa.Instruction) {
+				if !baseAppend(in) {
+					return
+				}
+				c := in.(ssa.CallInstruction)
+				args := callArgs(c)
+				ename := ""
+				for _, a := range args {
+					if mi, ok := a.(*ssa.MakeInterface); ok {
+						ename = namedName(mi.X.Type())
+					}
+				}
+				rl, known := revertLabels[ename]
+				if ename == "" || !known {
+					return
+				}
+				nApp++
+				// writes after the append, in this function (directly or through non-journaling helpers)
+				after := map[string]bool{}
+				for _, b := range fn.Blocks {
+					for _, x := range b.Instrs {
+						if x == in || !instrMayPrecede(in, x) {
+							continue
+						}
+						if l, ok := fine(x); ok {
+							after[l] = true
+						}
+						if cc, ok := x.(ssa.CallInstruction); ok {
+							if sc := cc.Common().StaticCallee(); sc != nil && sc.Blocks != nil && fnPkgPath(sc) == statedbPkg && !hasAppend(sc) && !alwaysAppends[sc] && !statedbConstructors[sc.Name()] && !isReader(sc) {
+								for l := range labelsOf(sc, 3) {
+									after[l] = true
+								}
+							}
+						}
+					}
+				}
+				var missing []string
+				for l := range after {
+					if !covers(rl, l) {
+						missing = append(missing, l)
+					}
+				}
+				sort.Strings(missing)
+				r.Check(len(missing) == 0, "R4", fmt.Sprintf("%s#entry-covers-writes/%s", fnID(fn), ename), P.Pos(instrPos(in)), "everything written after journal.append("+ename+") is restored by "+ename+".Revert",
+					fmt.Sprintf("after journalling %s the function writes %v, which %s.Revert does not restore: RevertToSnapshot leaves that part of the change in place when the frame reverts (a balance zeroed by a reverted SELFDESTRUCT stays zero and the final Commit burns the account's coins)", ename, missing, ename))
+			})
+		}
+		r.Floor("R4", "journal.append sites with a known entry kind", nApp, 10)
+	}
 	// each entry's Revert must read its own recorded fields (restores from the recorded previous value)
 	nE := 0
 	names := []string{}
